@@ -405,7 +405,13 @@ impl<const N: usize> Live<N> {
             Err(p) => {
                 c.tag("add:panic");
                 let _ = p;
-                "panic".to_string()
+                if has_empty_buf {
+                    // the refusal of an empty buffer (by a panic: the call was abandoned part-way, the case ends)
+                    self.stop = true;
+                    "refused-empty".to_string()
+                } else {
+                    "panic".to_string()
+                }
             }
             Ok((Err(e), _, _)) => {
                 c.tag(format!("add:{:?}", e));
@@ -424,7 +430,23 @@ impl<const N: usize> Live<N> {
                 if self.q.verif_state() != st_before {
                     c.fail(format!("[C03] refused add changed the queue's bookkeeping (num_used, free_head, avail_idx, last_used_idx): {:?} -> {:?}", st_before, self.q.verif_state()));
                 }
-                err_str(e)
+                if has_empty {
+                    // nothing was published: the per-store validation goes on for the rest of the history
+                    // (a refusal that leaked descriptors shows up there, when they are handed out again)
+                    STORE.with(|s| {
+                        if let Some(ctx) = s.borrow_mut().as_mut() {
+                            ctx.suspended = false;
+                        }
+                    });
+                }
+                let capacity_refusal = k == 0 || if self.indirect { free_before == 0 || k > N } else { k > free_before };
+                if has_empty && !capacity_refusal && halev.is_empty() && evs == "-" && self.q.verif_state() == st_before {
+                    // an empty buffer on the direct path is refused by a panic today; a clean error is
+                    // the same refusal (both are printed alike, the history goes on from the unchanged state)
+                    "refused-empty".to_string()
+                } else {
+                    err_str(e)
+                }
             }
             Ok((Ok(t), ins, outs)) => {
                 c.tag("add:ok");
@@ -515,9 +537,9 @@ impl<const N: usize> Live<N> {
                 format!("ok token={}", t)
             }
         };
-        if res == "panic" {
-            // the call was abandoned part-way: the case ends here and nothing after it is compared
-            c.step(op, "panic".to_string());
+        if res == "panic" || res == "refused-empty" {
+            // (a panic: the call was abandoned part-way, the case ends here and nothing after it is compared)
+            c.step(op, res.clone());
         } else {
             c.step(op, format!("{} | {} | {}", res, evs, self.priv_str()));
         }
